@@ -12,7 +12,7 @@ use serde_json::json;
 use std::cell::RefCell;
 use std::time::Duration;
 
-pub const RULE: &str = "legal games from reference-model walks: root = startpos or a generated legal FEN (repository FENs, themes, random placements), 0-250 plies chosen with weights that make castling (both sides, both wings), en passant and all four promotion pieces occur; the text sent is 'position startpos|fen <reference FEN> moves <long algebraic>'. On the shipped binary (one process per worker serves thousands of cases): the 'FEN:' line of 'd fen' must equal the reference FEN of the final position; the move set printed by 'd perftdiv 1' must equal the reference legal moves in long algebraic form (lower-case promotion letter, castling as the king's two-square move); 'go depth 1' ('go movetime 20' when four or more queens are on the board) must answer with a member of that set; a search that stays silent for 60 s is not judged by this check. End of output or a panic line is a violation with the session as replay. In-process: parser::parse of the same line must yield the same (from, to, promotion) triples, and every legal reply of the final position must be printed identically to the reference long-algebraic text by UciMove::notation (bestmove, pv) and by Move's Debug form (perftdiv). One case in twelve is preceded, in the same process, by a position command whose start position is a different legal position with the same 64-bit key (constructed by elimination over the key words) and whose move list begins alike. Non-trivial = game containing castling, en passant or a promotion; distinct by command text.";
+pub const RULE: &str = "legal games from reference-model walks: root = startpos or a generated legal FEN (repository FENs, themes, random placements), 0-250 plies chosen with weights that make castling (both sides, both wings), en passant and all four promotion pieces occur; the text sent is 'position startpos|fen <reference FEN> moves <long algebraic>'. On the shipped binary (one process per worker serves thousands of cases): the 'FEN:' line of 'd fen' must equal the reference FEN of the final position; the move set printed by 'd perftdiv 1' must equal the reference legal moves in long algebraic form (lower-case promotion letter, castling as the king's two-square move); 'go depth 1' ('go movetime 20' when the material exceeds the initial one by two queens' worth or more) must answer with a member of that set; a search that stays silent for 60 s is not judged by this check. End of output or a panic line is a violation with the session as replay. In-process: parser::parse of the same line must yield the same (from, to, promotion) triples, and every legal reply of the final position must be printed identically to the reference long-algebraic text by UciMove::notation (bestmove, pv) and by Move's Debug form (perftdiv). One case in twelve is preceded, in the same process, by a position command whose start position is a different legal position with the same 64-bit key (constructed by elimination over the key words) and whose move list begins alike. Non-trivial = game containing castling, en passant or a promotion; distinct by command text.";
 
 #[derive(Serialize, Deserialize, Clone, Debug)]
 pub enum Case {
@@ -274,8 +274,7 @@ fn check(g: &Game17, st: &mut Stats) -> Result<(), Fail> {
                 // positions full of queens can keep even a one-ply search busy for minutes (capture
                 // storms in quiescence); how long a search takes is not this property's business, so
                 // those get a short fixed move time, and a search that stays silent is not judged here
-                let queens = g.finalpos.count(true, Kind::Q) + g.finalpos.count(false, Kind::Q);
-                let go = if queens >= 4 { "go movetime 20" } else { "go depth 1" };
+                let go = if super::searchlib::heavy_extra(&g.finalpos) >= 4 { "go movetime 20" } else { "go depth 1" };
                 e.send(go).map_err(|x| died(e, &x))?;
                 loop {
                     match e.read_line(Duration::from_secs(60)) {
